@@ -11,7 +11,7 @@ For each seed /tmp/seed-out/<id>/<x>.patch.diff (+ <x>_demo_test.go, <x>.meta.js
   6. `npverif check -all -repo <worktree>` on the changed tree: which properties raise a VIOLATION.
 Kept seeds are copied to /verif/seeded/<id>-<x>/ (patch.diff, demo, meta.json).
 
-usage: seed_verify.py [--only C01-a,C02-b] [--jobs N] [--recheck]   (--recheck: only step 6, for kept seeds)
+usage: seed_verify.py [--src /tmp/seed2-out --tag r2] [--only C01-a,C02-b] [--jobs N] [--recheck]   (--recheck: only step 6, for kept seeds)
 """
 import json, os, re, subprocess, sys, tempfile, shutil, glob, concurrent.futures
 
@@ -19,6 +19,8 @@ ENV = dict(os.environ, GOFLAGS="-mod=mod", GOPROXY="off", GOSUMDB="off", GOTOOLC
 ENV.pop("GOWORK", None)
 BASE = set(json.load(open("/root/.vp/BASELINE.json"))["stable_pass"])
 OUT = "/verif/seeded"
+SRC = "/tmp/seed-out"  # --src
+TAG = ""  # --tag: prefix of the kept seed letter (round 2: r2 -> <id>-r2a)
 
 
 def sh(cmd, cwd=None, timeout=1500):
@@ -53,18 +55,19 @@ def run_checks(w):
 
 
 def verify(seed_id, x, recheck=False):
-    sdir = f"/tmp/seed-out/{seed_id}"
+    sdir = f"{SRC}/{seed_id}"
+    sx = x[len(TAG):] if TAG and x.startswith(TAG) else x
     kept = f"{OUT}/{seed_id}-{x}"
     if recheck:
         sdir = kept
         patch = f"{kept}/patch.diff"
         meta = json.load(open(f"{kept}/meta.json"))
     else:
-        patch = f"{sdir}/{x}.patch.diff"
+        patch = f"{sdir}/{sx}.patch.diff"
         if not os.path.exists(patch):
             return {"seed": f"{seed_id}-{x}", "status": "no-patch"}
         try:
-            meta = json.load(open(f"{sdir}/{x}.meta.json"))
+            meta = json.load(open(f"{sdir}/{sx}.meta.json"))
         except Exception:
             meta = {}
     res = {"seed": f"{seed_id}-{x}", "property": seed_id}
@@ -95,7 +98,7 @@ def verify(seed_id, x, recheck=False):
             return res
         # demo
         demo = None
-        for cand in (f"{sdir}/{x}_demo_test.go",):
+        for cand in (f"{sdir}/{sx}_demo_test.go",):
             if os.path.exists(cand):
                 demo = cand
         loc = (meta.get("demo_location") or "") + " " + (meta.get("demo_cmd") or "")
@@ -155,6 +158,7 @@ def verify(seed_id, x, recheck=False):
 
 
 def main():
+    global SRC, TAG
     only = None
     jobs = 5
     recheck = "--recheck" in sys.argv
@@ -163,17 +167,21 @@ def main():
             only = set(sys.argv[i + 1].split(","))
         if a == "--jobs":
             jobs = int(sys.argv[i + 1])
+        if a == "--src":
+            SRC = sys.argv[i + 1]
+        if a == "--tag":
+            TAG = sys.argv[i + 1]
     seeds = []
     if recheck:
         for d in sorted(glob.glob(f"{OUT}/C*-*")):
             sid, x = os.path.basename(d).split("-")
             seeds.append((sid, x))
     else:
-        for d in sorted(glob.glob("/tmp/seed-out/C*")):
+        for d in sorted(glob.glob(f"{SRC}/C*")):
             sid = os.path.basename(d)
             for x in ("a", "b"):
                 if os.path.exists(f"{d}/{x}.patch.diff"):
-                    seeds.append((sid, x))
+                    seeds.append((sid, TAG + x))
     if only:
         seeds = [s for s in seeds if f"{s[0]}-{s[1]}" in only]
     results = []
